@@ -148,16 +148,16 @@ where
     let classes = part0.iter().max().map(|m| *m as usize + 1).unwrap_or(0);
     run.eval();
     let text = match catch(|| serde_saphyr::to_string(&original)) {
-        Err(p) => return run.violation(&format!("C14:panic:{}", panic_site(&p)), case(), p),
-        Ok(Err(e)) => return run.violation(&sig("serialize-err"), case(), detail("serialize-err", format!("to_string failed: {e}"))),
+        Err(p) => return crate::report(run, &format!("C14:panic:{}", panic_site(&p)), case(), p),
+        Ok(Err(e)) => return crate::report(run, &sig("serialize-err"), case(), detail("serialize-err", format!("to_string failed: {e}"))),
         Ok(Ok(t)) => t,
     };
     let ev = match analyse_events(&text) {
         Ok(ev) => ev,
-        Err(why) => return run.violation(&sig("emit-unparsable"), case(), detail("emit-unparsable", format!("raw parser rejects the emitted text ({why}):\n{text}"))),
+        Err(why) => return crate::report(run, &sig("emit-unparsable"), case(), detail("emit-unparsable", format!("raw parser rejects the emitted text ({why}):\n{text}"))),
     };
     if ev.defs != classes || ev.aliases != part0.len() - classes || ev.seq != part0 {
-        return run.violation(
+        return crate::report(run, 
             &sig("emit-structure"),
             case(),
             detail(
@@ -176,28 +176,28 @@ where
     }
     run.eval();
     match catch(|| serde_saphyr::from_str::<C>(&text)) {
-        Err(p) => return run.violation(&format!("C14:panic:{}", panic_site(&p)), case(), p),
-        Ok(Err(e)) => return run.violation(&sig("roundtrip-err"), case(), detail("roundtrip-err", format!("from_str failed: {e}\ntext:\n{text}"))),
+        Err(p) => return crate::report(run, &format!("C14:panic:{}", panic_site(&p)), case(), p),
+        Ok(Err(e)) => return crate::report(run, &sig("roundtrip-err"), case(), detail("roundtrip-err", format!("from_str failed: {e}\ntext:\n{text}"))),
         Ok(Ok(back)) => {
             let pos1 = back.positions();
             if pos1.len() != pos0.len() || pos0.iter().zip(pos1.iter()).any(|(a, b)| a.get() != b.get()) {
                 let v0: Vec<&T> = pos0.iter().map(|p| p.get()).collect();
                 let v1: Vec<&T> = pos1.iter().map(|p| p.get()).collect();
-                return run.violation(&sig("value"), case(), detail("value", format!("values {v0:?} read back as {v1:?}\ntext:\n{text}")));
+                return crate::report(run, &sig("value"), case(), detail("value", format!("values {v0:?} read back as {v1:?}\ntext:\n{text}")));
             }
             let part1 = partition::<T, P>(&pos1);
             if part1 != part0 {
-                return run.violation(&sig("topology"), case(), detail("topology", format!("ptr_eq partition {part0:?} read back as {part1:?}\ntext:\n{text}")));
+                return crate::report(run, &sig("topology"), case(), detail("topology", format!("ptr_eq partition {part0:?} read back as {part1:?}\ntext:\n{text}")));
             }
         }
     }
     run.eval();
     match catch(|| serde_saphyr::from_str::<M>(&text)) {
-        Err(p) => return run.violation(&format!("C14:panic:{}", panic_site(&p)), case(), p),
-        Ok(Err(e)) => return run.violation(&sig("mirror-err"), case(), detail("mirror-err", format!("plain mirror failed: {e}\ntext:\n{text}"))),
+        Err(p) => return crate::report(run, &format!("C14:panic:{}", panic_site(&p)), case(), p),
+        Ok(Err(e)) => return crate::report(run, &sig("mirror-err"), case(), detail("mirror-err", format!("plain mirror failed: {e}\ntext:\n{text}"))),
         Ok(Ok(m)) => {
             if m != mirror_expected {
-                return run.violation(&sig("mirror-value"), case(), detail("mirror-value", format!("plain mirror {m:?} != {mirror_expected:?}\ntext:\n{text}")));
+                return crate::report(run, &sig("mirror-value"), case(), detail("mirror-value", format!("plain mirror {m:?} != {mirror_expected:?}\ntext:\n{text}")));
             }
         }
     }
